@@ -2,6 +2,7 @@ package bytecode
 
 import (
 	"fmt"
+	"math"
 
 	"evylang.dev/evy/pkg/parser"
 )
@@ -491,6 +492,10 @@ func (c *Compiler) compileProgram(prog *parser.Program) error {
 		if err := c.Compile(s); err != nil {
 			return err
 		}
+	}
+	if len(c.instructions) > math.MaxUint16 {
+		// jump targets are 16 bit operands and have been patched without a range check
+		return fmt.Errorf("%w: %d bytes of instructions, jump targets do not fit into 16 bits", ErrTooLarge, len(c.instructions))
 	}
 	return nil
 }
